@@ -1,1 +1,53 @@
-From CMinx Require Import Base.Str.
+(* Properties/C15.v -- Exclusion patterns are honoured for every matching path.
+   Only theorem statements; proofs are in Proofs/WalkFacts.v, WalkFacts2.v.  The matcher excl
+   (pathspec on absolute paths, directories with a trailing slash) is a parameter: the theorems
+   hold for every matcher; the harness validates that CMinx asks pathspec the right question. *)
+From Coq Require Import String List Permutation.
+From CMinx Require Import Base.Str Model.Naming Model.Pipeline Model.Walk
+     Proofs.WalkFacts Proofs.WalkFacts2.
+Import ListNotations.
+
+(* a written page stems from a non-excluded CMake file of a visited directory *)
+Theorem C15_written_only_if_not_excluded :
+  forall st hdrs docfn excl base top p,
+    In p (write_paths (document st hdrs docfn excl base (KDir top))) ->
+    (exists rel ch, visited st excl [] top rel ch /\ p = rel ++ [index_rst])
+    \/ (exists rel ch fn bytes, visited st excl [] top rel ch /\ In (F fn bytes) ch
+          /\ excl (rel ++ [fn]) false = false /\ is_cmake_name fn = true /\ p = rel ++ [rst_name fn]).
+Proof. exact written_page_from_nonexcluded. Qed.
+Print Assumptions C15_written_only_if_not_excluded.
+
+(* ... and conversely every non-excluded CMake file of a visited processed directory is written
+   (C13_writes_exact); an excluded file is not, however many siblings are excluded too *)
+Theorem C15_excluded_file_not_written :
+  forall st hdrs docfn excl base top rel ch fn bytes, tree_ok top = true ->
+    visited st excl [] top rel ch -> In (F fn bytes) ch -> is_cmake_name fn = true ->
+    excl (rel ++ [fn]) false = true ->
+    ~ In (rel ++ [rst_name fn]) (write_paths (document st hdrs docfn excl base (KDir top))).
+Proof. exact excluded_file_not_written. Qed.
+Print Assumptions C15_excluded_file_not_written.
+
+(* an excluded directory is not descended into *)
+Theorem C15_excluded_dir_not_descended :
+  forall st hdrs docfn excl base top rel nm, excl (rel ++ [nm]) true = true ->
+    (forall p q, In p (write_paths (document st hdrs docfn excl base (KDir top))) -> q <> [] ->
+                 p <> rel ++ nm :: q)
+    /\ (forall p q, In p (mkdirs (document st hdrs docfn excl base (KDir top))) -> p <> rel ++ nm :: q).
+Proof. exact excluded_dir_not_descended. Qed.
+Print Assumptions C15_excluded_dir_not_descended.
+
+(* an excluded input path produces no output at all *)
+Theorem C15_excluded_input_no_output :
+  forall st hdrs docfn excl base kind,
+    excl [] (match kind with KDir _ => true | _ => false end) = true ->
+    document st hdrs docfn excl base kind = [].
+Proof. exact excluded_input_no_output. Qed.
+Print Assumptions C15_excluded_input_no_output.
+
+(* the order of the directory listings is irrelevant: same set of (path, content) pairs *)
+Theorem C15_listing_order_irrelevant :
+  forall st hdrs docfn excl base ch ch', tperm_list ch ch' -> tree_ok ch = true -> all_ok docfn ->
+    Permutation (writes (document st hdrs docfn excl base (KDir ch)))
+                (writes (document st hdrs docfn excl base (KDir ch'))).
+Proof. exact listing_order_irrelevant. Qed.
+Print Assumptions C15_listing_order_irrelevant.
